@@ -1,3 +1,4 @@
+#![allow(dead_code)]
 //! oq3mon — runtime monitors for Qiskit/openqasm3_parser (see /verif/DESIGN.md).
 //!
 //!   oq3mon run <PROP> --tier quick|thorough --seed N --shard i --nshards n --out DIR [--start G] [--careful] [--limit K]
@@ -5,12 +6,17 @@
 //!   oq3mon fpmerge DIR
 //!   oq3mon list
 
+mod alloc;
 mod gen;
 mod mon;
 mod rng;
 mod worker;
 
 use worker::{Property, RunArgs, Tier};
+
+#[cfg(not(miri))]
+#[global_allocator]
+static GLOBAL: alloc::Counting = alloc::Counting;
 
 fn registry() -> Vec<Box<dyn Property>> {
     mon::all()
